@@ -677,6 +677,11 @@ class BaseSpectrum:
         """
         x = self._validate_wavelengths(wavelengths)
 
+        # The end points are matched with the end values below, so work on
+        # wavelengths in ascending order whatever order they were given in.
+        if x.size > 1 and x[0] > x[-1]:
+            x = x[::-1]
+
         # Calculate new end points for tapering
         w1 = x[0] ** 2 / x[1]
         w2 = x[-1] ** 2 / x[-2]
